@@ -189,6 +189,19 @@ func leaked(d time.Duration) string {
 	}
 }
 
+// requestCh calls CloseNotify on a goroutine of its own and waits a bounded time for it: a call
+// that does not return ("no matter when it was requested") is a violation, not a hung check.
+func requestCh(cn diam.CloseNotifier) (<-chan struct{}, *ev.Failure) {
+	got := make(chan (<-chan struct{}), 1)
+	go func() { got <- cn.CloseNotify() }()
+	select {
+	case ch := <-got:
+		return ch, nil
+	case <-time.After(2 * promptly):
+		return nil, ev.Failf("closenotify-call-blocked", "a CloseNotify() call did not return within %v", 2*promptly)
+	}
+}
+
 func runCase(c Case) *ev.Failure {
 	if pre := leaked(2 * time.Second); pre != "" {
 		return ev.Failf("goroutine-leak-after-earlier-case", "a goroutine the library started for a connection of an EARLIER case is still alive (that connection had terminated):\n%s", pre)
@@ -287,12 +300,20 @@ func runCase(c Case) *ev.Failure {
 				cleanup()
 				return ev.Failf("harness-park", "event %d: the reader did not park", i)
 			}
-			ch := cn.CloseNotify()
+			ch, bf := requestCh(cn)
+			if bf != nil {
+				cleanup()
+				return bf
+			}
 			h.mu.Lock()
 			h.chans = append(h.chans, ch)
 			h.mu.Unlock()
 		case "req-now":
-			ch := cn.CloseNotify()
+			ch, bf := requestCh(cn)
+			if bf != nil {
+				cleanup()
+				return bf
+			}
 			h.mu.Lock()
 			h.chans = append(h.chans, ch)
 			h.mu.Unlock()
@@ -364,7 +385,11 @@ func runCase(c Case) *ev.Failure {
 		// more message makes sure of it, so the notifier routine is what reads the transport now),
 		// and then a handler waits for the channel while the connection goes away under it.
 		if len(chans) == 0 {
-			ch := cn.CloseNotify()
+			ch, bf := requestCh(cn)
+			if bf != nil {
+				cleanup()
+				return bf
+			}
 			h.mu.Lock()
 			h.chans = append(h.chans, ch)
 			h.mu.Unlock()
@@ -459,7 +484,12 @@ func runCase(c Case) *ev.Failure {
 		}
 	}
 	for i := 0; i < c.Late; i++ {
-		if !closedWithin(cn.CloseNotify(), promptly) {
+		late, bf := requestCh(cn)
+		if bf != nil {
+			cleanup()
+			return bf
+		}
+		if !closedWithin(late, promptly) {
 			cleanup()
 			return ev.Failf("late-request-never-fired", "a CloseNotify channel requested after termination (%q) was not closed within %v", c.Term, promptly)
 		}
